@@ -111,12 +111,14 @@ contract('ResourceManager.reserve_resources', props=['C09'], args={'request': 'd
          },
          modifies=['self._resources[]', '$trace'])
 loop('ResourceManager.reserve_resources', 1, 'for (resource_name, amount) in request.items()',
+     {'no_negative_so_far': 'all(request[keys(request)[j]] >= 0 for j in range(k))'},
+     modifies=[], index='k')
+loop('ResourceManager.reserve_resources', 2, 'for (resource_name, amount) in request.items()',
      {'taken_so_far':
           'all((n in self._resources) == at_loop_entry(n in self._resources) and '
           '    use(self, n) == at_loop_entry(use(self, n)) + '
           '        ite(n in request and key_pos(request, n) < k and request[n] > 0, request[n], 0) and '
           '    cap(self, n) == at_loop_entry(cap(self, n)) for n in refs())',
-      'no_negative_so_far': 'all(request[keys(request)[j]] >= 0 for j in range(k))',
       'request_fixed': 'dmap(request) == at_loop_entry(dmap(request)) and seq(keys(request)) == at_loop_entry(seq(keys(request)))'},
      modifies=['self._resources[]', '$trace'], index='k')
 
@@ -166,7 +168,8 @@ contract('ReservedResources.release', props=['C09', 'C10'], args={'resources': '
                  'KeyError': (None, {'raises_unchanged': '@frame:'})},
          ensures={
              'only_valid_requests_succeed':
-                 'old(resources is None or all(resources[n] >= 0 and resources[n] <= held(self, n) for n in resources))',
+                 'old(resources is None or all(resources[n] >= 0 and n in self._reserved_resources and '
+                 '                             resources[n] <= held(self, n) for n in resources))',
              'gives_back_exactly':
                  'all(use(self._resource_manager, n) == old(use(self._resource_manager, n)) - '
                  '    old(ite(resources is None, held(self, n), ite(n in resources, resources[n], 0))) and '
@@ -178,9 +181,9 @@ contract('ReservedResources.release', props=['C09', 'C10'], args={'resources': '
 # loop 1: validation of a partial release
 loop('ReservedResources.release', 1, 'for (resource_name, amount) in resources.items()',
      {'validated_prefix':
-          'all(resources[keys(resources)[j]] >= 0 and '
-          '    (resources[keys(resources)[j]] == 0 or (keys(resources)[j] in self._reserved_resources and '
-          '     self._reserved_resources[keys(resources)[j]] >= resources[keys(resources)[j]])) for j in range(k))'},
+          'all(resources[keys(resources)[j]] >= 0 and keys(resources)[j] in self._reserved_resources and '
+          '    (resources[keys(resources)[j]] == 0 or '
+          '     self._reserved_resources[keys(resources)[j]] >= resources[keys(resources)[j]]) for j in range(k))'},
      modifies=[], index='k')
 # loop 2: holdings are reduced; g_td[j] = position in to_delete of the j-th key if it reached zero,
 #         g_src[i] = index of the key that to_delete[i] came from (strictly increasing)
@@ -254,3 +257,82 @@ loop('ReservedResources.merge', 1, 'for (resource_name, amount) in reserved_reso
           '        reserved_resources._reserved_resources[n], 0) for n in refs())',
       'still_positive': 'all(self._reserved_resources[n] > 0 for n in self._reserved_resources)'},
      modifies=['self._reserved_resources[]'], index='k')
+
+# --------------------------------------------------------------------------- C10: waiting requests
+specfn('can_serve', ['rm', 'q'],
+       'all(implies(q[n] != 0, n in rm._resources and rm._resources[n][1] - rm._resources[n][0] >= q[n]) for n in q)')
+invariant('ResourceManager', 'waiters_wellformed',
+          'self._waiting_requests is not None and alive(self._waiting_requests) and '
+          'all(w[0] is not None and alive(w[0]) and w[0] is not self._resources and w[1] is not None '
+          '    for w in self._waiting_requests)')
+WAIT_INV = 'all(not can_serve(self, w[0]) for w in self._waiting_requests) or self._g_check_pending'
+
+contract('ReservedResources.__init__', props=['C09'], invariants=False,
+         args={'resource_manager': 'ref:ResourceManager', 'reserved_resources': 'dict[str,real]'},
+         ensures={'fields_as_given': 'self._resource_manager is resource_manager and '
+                                     'self._reserved_resources is reserved_resources'})
+
+contract('ResourceManager.initialize', props=['C09', 'C15'], args={'env': 'ref:Environment'},
+         requires={'env_exists': 'env is not None and alive(env)'},
+         ensures={'remembers_env': 'self._env is env', 'pool_untouched': 'pool_unchanged(self)'},
+         modifies=['self._env', '$trace'])
+loop('ResourceManager.initialize', 1, 'for resource_name in self._resources.keys()',
+     {'env_set': 'self._env is env'}, modifies=['$trace'], index='k')
+
+contract('ResourceManager.reserve_resources_with_callback', props=['C10'],
+         args={'request': 'dict[str,real]', 'callback': 'clo'},
+         requires={'initialised': 'self._env is not None and alive(self._env)',
+                   'request_is_a_dict': 'alive(request) and request is not self._resources',
+                   'callable': 'callback is not None'},
+         ensures={
+             'appends_copy_at_back':
+                 'len(self._waiting_requests) == old(len(self._waiting_requests)) + 1 and '
+                 'self._waiting_requests[-1][1] == callback and fresh(self._waiting_requests[-1][0]) and '
+                 'dmap(self._waiting_requests[-1][0]) == dmap(request)',
+             'earlier_waiters_keep_their_place':
+                 'all(self._waiting_requests[j] == old(self._waiting_requests[j]) for j in range(old(len(self._waiting_requests))))',
+             'check_scheduled': 'self._g_check_pending',
+             'pool_untouched': 'pool_unchanged(self)',
+         },
+         modifies=['self._waiting_requests[]', 'self._g_check_pending', '$trace'])
+
+# What a waiter's callback may do to the manager while it runs (A4: public API only): reserve (usage grows),
+# release / add capacity (both set the check flag, see their contracts), register further waiters (at the back).
+RM_INVS = {n: t for n, t, s in SPECS.invariants['ResourceManager']}
+rely('ResourceManager', protect=['self._env', 'self._name'],
+     before=RM_INVS,
+     after=dict(RM_INVS,
+                waiters_only_appended=
+                'self._waiting_requests is old(self._waiting_requests) and '
+                'len(self._waiting_requests) >= old(len(self._waiting_requests)) and '
+                'all(self._waiting_requests[j] == old(self._waiting_requests[j]) and '
+                '    dmap(self._waiting_requests[j][0]) == old(dmap(self._waiting_requests[j][0])) '
+                '    for j in range(old(len(self._waiting_requests))))',
+                pool_only_more_used_unless_check_scheduled=
+                'self._g_check_pending or (old(not self._g_check_pending) and '
+                '    self._resources is old(self._resources) and '
+                '    all((n in self._resources) == old(n in self._resources) and '
+                '        implies(n in self._resources, self._resources[n][0] >= old(self._resources[n][0]) and '
+                '                self._resources[n][1] == old(self._resources[n][1])) for n in refs()))'),
+     note='A4: a waiter callback uses only reserve_resources / release / add_resources / reserve_resources_with_callback; '
+          'it does not mutate the request copies held by the manager')
+
+ghost_after('ResourceManager._check_pending_requests', '<entry>', g_ok='True')
+ghost_before('ResourceManager._check_pending_requests',
+             'self._waiting_requests[i][1](self, self._waiting_requests[i][0])',
+             g_ok='g_ok and can_serve(self, self._waiting_requests[i][0])')
+ghost_after('ResourceManager._check_pending_requests',
+            'self._waiting_requests[i][1](self, self._waiting_requests[i][0])',
+            g_ok='g_ok and trace_kind(trace_len() - 1) == 0 and trace_fn(trace_len() - 1) == self._waiting_requests[i][1] '
+                 'and trace_ref(trace_len() - 1, 0) is self and trace_ref(trace_len() - 1, 1) is self._waiting_requests[i][0]')
+
+contract('ResourceManager._check_pending_requests', props=['C10'], args={},
+         requires={'initialised': 'self._env is not None and alive(self._env)'},
+         ensures={'no_feasible_waiter_left_unless_check_pending': WAIT_INV,
+                  'callbacks_only_for_fitting_requests_with_manager_and_request_copy': 'g_ok'})
+loop('ResourceManager._check_pending_requests', 1, 'while i < len(self._waiting_requests)',
+     dict(RM_INVS,
+          cursor='0 <= i and i <= len(self._waiting_requests)',
+          skipped_do_not_fit='all(not can_serve(self, self._waiting_requests[j][0]) for j in range(i)) or self._g_check_pending',
+          calls_ok='g_ok'),
+     modifies=None)
